@@ -31,9 +31,8 @@ Definition truth (v : pv) : option bool :=
   end.
 
 (* `if c: a else: b` with exception propagation from the test *)
-Notation "'pif' c 'then' a 'else' b" :=
-  (match truth c with Some true => a | Some false => b | None => c end)
-  (at level 200, right associativity).
+Definition py_if (c a b : pv) : pv :=
+  match truth c with Some true => a | Some false => b | None => c end.
 
 (* numeric view: bool is an int *)
 Definition as_int (v : pv) : option Z :=
@@ -54,6 +53,9 @@ Definition py_sub := arith (fun x y => PInt (x - y)).
 Definition py_mul := arith (fun x y => PInt (x * y)).
 Definition py_floordiv := arith (fun x y => if y =? 0 then PErr "ZeroDivisionError" else PInt (x / y)).
 Definition py_mod := arith (fun x y => if y =? 0 then PErr "ZeroDivisionError" else PInt (x mod y)).
+(* division once the divisor is known to be non-zero (the translator hoists the zero test) *)
+Definition py_floordiv_nz := arith (fun x y => PInt (x / y)).
+Definition py_mod_nz := arith (fun x y => PInt (x mod y)).
 Definition py_min := arith (fun x y => PInt (Z.min x y)).
 Definition py_max := arith (fun x y => PInt (Z.max x y)).
 Definition py_lt := arith (fun x y => PBool (x <? y)).
@@ -149,6 +151,35 @@ Definition py_index (v i : pv) : pv :=
   first_err v i
     (match v, as_int i with
      | PSeq l, Some k => match py_nth l k with Some x => x | None => PErr "IndexError" end
+     | _, _ => PErr "TypeError"
+     end).
+
+(* a, b, c = v : element i of a sequence of exactly n elements *)
+Definition py_unpack (n : Z) (v : pv) (i : Z) : pv :=
+  match v with
+  | PErr e => PErr e
+  | PSeq l => if Nat.eqb (length l) (Z.to_nat n)
+              then match nth_error l (Z.to_nat i) with Some x => x | None => PErr "ValueError" end
+              else PErr "ValueError"
+  | _ => PErr "TypeError"
+  end.
+
+(* slice.indices(size) *)
+Definition py_slice_indices (k size : pv) : pv :=
+  first_err k size
+    (match k, as_int size with
+     | PSlice a b c, Some n =>
+         match (match a with PNone => Some None | PInt z => Some (Some z) | _ => None end),
+               (match b with PNone => Some None | PInt z => Some (Some z) | _ => None end),
+               (match c with PNone => Some None | PInt z => Some (Some z) | _ => None end) with
+         | Some x, Some y, Some z =>
+             if n <? 0 then PErr "ValueError" else
+             match slice_indices (mk_slice x y z) n with
+             | Some (s0, s1, s2) => PSeq [PInt s0; PInt s1; PInt s2]
+             | None => PErr "ValueError"
+             end
+         | _, _, _ => PErr "TypeError"
+         end
      | _, _ => PErr "TypeError"
      end).
 
